@@ -139,31 +139,7 @@ def check(ctx):
             ctx.ok('C05.3', site, 'writer: [untagged(subject)] then untagged(a) for a in assertions (stored order)', sample=fmt(val))
         else:
             ctx.fail('C05.3', site, 'node writer is not [untagged(subject)] ++ map(untagged, assertions): %s' % fmt(val), key='C05.3|writer')
-    for bi, si, t, kind, tags, vs in dec['accepts']:
-        if kind != 'Array':
-            continue
-        t2 = unwrap_try(t[3][0]) if t[0] == 'agg' and t[2] == 'Ok' else unwrap_try(t)
-        a = None
-        c = callee_of(t2)
-        if c is not None and len(t2[2]) == 2:
-            a = t2[2]
-        good = False
-        if a is not None:
-            s = m_call(unwrap_try(a[0]), name='from_untagged_cbor')
-            rest = unwrap_try(a[1])
-            col = m_call(rest, name='collect', trait='Iterator')
-            if s is not None and col is not None:
-                ix = m_call(s[0], name='index')
-                mp = m_call(col[0], name='map', trait='Iterator')
-                if ix is not None and const_int(ix[1]) == 0 and mp is not None and mp[1][0] == 'fnref' and mp[1][1].endswith('from_untagged_cbor'):
-                    src = elem_source(mp[0])
-                    ix2 = m_call(src, name='index')
-                    if ix2 is not None and same(ix2[0], ix[0]) and ix2[1][0] == 'agg' and ix2[1][1].endswith('RangeFrom') and const_int(ix2[1][3][0]) == 1:
-                        good = True
-        if good:
-            ctx.ok('C05.3', ctx.site(b, bi, si), 'reader: subject = decode(elements[0]); assertions = decode each of elements[1..] in order', sample=fmt(t2))
-        else:
-            ctx.fail('C05.3', ctx.site(b, bi, si), 'node reader is not (decode(elements[0]), map(decode, elements[1..])): %s' % fmt(t2), key='C05.3|reader')
+    codec.check_node_reader(ctx, 'C05.3', dec)
 
     # ---- C05.4 decoder builds through constructors (no aggregate of EnvelopeCase in the decoding bodies)
     for bi, si, t, kind, tags, vs in dec['accepts']:
